@@ -33,7 +33,7 @@ def main():
            "tests, and comes with a demonstration test that fails with the change and passes without it (confirmed here by `lib/seed.py` in a scratch",
            "worktree before it was kept; `seeded/<id>/{patch.diff, demo.rs, author_notes.md, meta.json}`). Rounds: `-M1/-M2` round 1, `-M3/-M4` round 2",
            "(the patch files of round 2 were lost with a sandbox restore; they were re-created by other sub-agents from the authors' one-line descriptions,",
-           "with new demonstrations, and confirmed the same way), `-M5/-M6` round 3. Several authors independently chose the same edit for different",
+           "with new demonstrations, and confirmed the same way), `-M5/-M6` round 3, `-M7/-M8` round 4. Several authors independently chose the same edit for different",
            "properties (marked \"same edit as\"); each is kept, with its own demonstration.",
            "`caught by` = quick tier of that check printed `VIOLATION property=<that check's id>` when pointed at the changed tree (`VERIF_REPO`);",
            "`ran silent` = checks that were also tried and stayed silent (a change usually breaks one property in the strict sense, neighbours are listed",
